@@ -178,6 +178,10 @@ func runHist[K any](h *hk[K]) {
 	vpPoolMode(vpParam(3))
 	nOps := vpParam(4)
 	t := h.newTree()
+	var emptyRetained uint64
+	if mask&ckRetain != 0 {
+		emptyRetained = vpRetainedTree(t)
+	}
 	ref := &refMap[K]{h: h}
 	var inserted []K
 	pi := 5
@@ -293,6 +297,74 @@ func runHist[K any](h *hk[K]) {
 		sa, sb := vpParam(pi+1), vpParam(pi+2)
 		pi += 3
 		checkPure(h, t, ref, which, sa, sb)
+	}
+	if mask&ckRetain != 0 {
+		cyc, spec := vpParam(pi), vpParam(pi+1)
+		pi += 2
+		checkRetain(h, t, ref, cyc, spec, emptyRetained)
+	}
+}
+
+// checkRetain (C17): the memory reachable from the tree (nodes, leaves, key storage, codec scratch) after
+// k+1 repetitions of a cycle equals that after one repetition (one warm-up absorbs the 4<->16 hysteresis);
+// by induction on the number of repetitions the retained size does not depend on the length of the history.
+// Under the executor vpRetainedTree is the exact byte count of the objects reachable in its heap model and
+// the cycle runs twice; natively it is the live heap after two forced collections and the cycle runs 100000
+// times, so a per-operation leak shows as growth far above the slack.
+func checkRetain[K any](h *hk[K], t Tree[K, uint64], ref *refMap[K], cyc, spec int, rEmpty uint64) {
+	k := mkKey(h, spec)
+	_, present := ref.get(k)
+	switch cyc {
+	case 1, 3:
+		vpAssume(present)
+	case 2:
+		vpAssume(!present)
+	}
+	v := vpU64()
+	cycle := func() {
+		vpApi()
+		switch cyc {
+		case 0: // read-only queries
+			t.Search(h.clone(k))
+			t.Minimum()
+			t.Maximum()
+			collect(t.All())
+			collect(t.Backward())
+			if h.bytesOf != nil {
+				collect(t.Prefix(h.clone(k)))
+			}
+			if !h.scratch {
+				collect(t.Range(h.clone(k), h.clone(k)))
+			}
+			collect(t.TopK(1))
+			collect(t.BottomK(1))
+		case 1: // overwrite of a present key
+			t.Insert(h.clone(k), v)
+		case 2: // insert an absent key, delete it again
+			t.Insert(h.clone(k), v)
+			t.Delete(h.clone(k))
+		case 3: // delete a present key, insert it again
+			t.Delete(h.clone(k))
+			t.Insert(h.clone(k), v)
+		}
+	}
+	cycle() // warm-up
+	r1 := vpRetainedTree(t)
+	n := vpReps(2, 100000)
+	for i := 0; i < n; i++ {
+		cycle()
+	}
+	r2 := vpRetainedTree(t)
+	vpTrace("retained.same", vpB2U(vpNoGrowth(r1, r2, 0)))
+	vpAssert(vpNoGrowth(r1, r2, 0), "C17 retained memory grew although the content did not (per-operation leak)")
+	if cyc == 3 {
+		// finally delete everything: the tree keeps no more than an empty tree plus a small constant
+		for i := range ref.ents {
+			t.Delete(h.clone(ref.ents[i].k))
+		}
+		t.Delete(h.clone(k))
+		r3 := vpRetainedTree(t)
+		vpAssert(vpNoGrowth(rEmpty, r3, 256), "C17 an emptied tree retains more than a new tree plus a small constant")
 	}
 }
 
@@ -452,6 +524,9 @@ func firstK[K any](h *hk[K], r *refMap[K], y *yielded[K], desc bool, n uint64) b
 }
 
 func checkRange[K any](h *hk[K], t Tree[K, uint64], ref *refMap[K], a, b K, emptyEnd bool) {
+	if h.bytesOf != nil && len(h.bytesOf(b)) == 0 {
+		emptyEnd = true // byte-string trees: an empty end bound means "up to the largest stored key"
+	}
 	if h.badBound != nil {
 		vpAssume(!h.badBound(a, b))
 	}
